@@ -88,6 +88,7 @@ def check(case, ctx):
                              "Q(start)=%r, Q(result)=%r (gamma=%s)" % (q_start, q_final, case["gamma"]), case,
                              _info(W, [final])))
     moved = not om.same_partition(final, start)
+    ctx.target(rec.count, "accepted-moves")
     if moved:
         ctx.mark_nontrivial(case)
 
